@@ -35,6 +35,7 @@ def run(ctx):
     vlib.import_pymwp()
     n = ctx.n(140, 1500)
     progs = streams.programs(ctx, n, max_sites=ctx.n(5, 6))
+    progs += streams.focused(ctx, ctx.n(60, 500), "pair-cycle") + streams.focused(ctx, ctx.n(20, 200), "branch-accumulate")
     failing, mism = [], []
     recs, coq_cases, calc_cases = [], [], []
     outcome = {}
@@ -73,6 +74,29 @@ def run(ctx):
                 vecs = [list(c) for c in itertools.product((0, 1, 2), repeat=k)]
                 ctx.rng.shuffle(vecs)
                 calc_cases.append((src, f, k, [(v, calc.derive(f, v)[0]) for v in vecs[:10]]))
+    # files with several functions: every function is analysed as if it were alone (choice indices restart at 0, nothing learnt
+    # about one function may leak into the next)
+    import gen_prog
+    nfiles = 0
+    for i in range(ctx.n(30, 300)):
+        parts = []
+        for fname in ("f", "g", "h")[: ctx.rng.choice([2, 2, 3])]:
+            parts.append(gen_prog.gen_function(ctx.rng, streams.cfg_for(ctx.rng, 4), fname=fname)[0])
+        src = "\n".join(parts)
+        nfiles += 1
+        for fin, strict in MODES[:2] if i % 2 else MODES[2:]:
+            r = e2e.run_real(src, fin, strict)
+            if r["exc"]:
+                if r["exc"][0] != "ParseError":
+                    failing.append({"what": f"raise: Analysis.run raised {r['exc']}", "sig": ["C01", "raise", r["exc"][0], r["exc"][1]],
+                                    "input": {"src": src, "opts": {"fin": fin, "strict": strict}}, "expected": "a result", "observed": r["exc"]})
+                continue
+            for fname, d in r["funcs"].items():
+                if d is None or d["typed"] is None:
+                    continue
+                res = e2e.calculus_check(d, "C01", failing, src, {"fin": fin, "strict": strict, "func": fname}, what_prefix=f"[function {fname} of a {len(parts)}-function file] ")
+                outcome["file:" + res] = outcome.get("file:" + res, 0) + 1
+                recs.append(d)
     if ctx.coq_ok:
         mism += e2e.coq_compare("c01", coq_cases)
         mism += e2e.coq_calculus_compare("c01", calc_cases)
@@ -91,7 +115,7 @@ def run(ctx):
                      "vectors; non-trivial = distinct typed function with >=1 site and a loop or branch",
              "samples": [progs[len(streams.CORPUS)][1] if len(progs) > len(streams.CORPUS) else progs[0][1], streams.CORPUS[5][1]],
              "outcomes": outcome, "distribution": dist, "coq_model_cases": len(coq_cases), "coq_calculus_cases": len(calc_cases),
-             "exceptions": nexc, "programs": len(progs)}
+             "exceptions": nexc, "programs": len(progs), "multi_function_files": nfiles}
     return {"failing": failing, "corr_mismatch": mism, "stats": stats}
 
 
@@ -103,8 +127,8 @@ def replay(ctx, data):
     r = e2e.run_real(inp["src"], o.get("fin", False), o.get("strict", False))
     if r["exc"]:
         return {"what": f"raise: {r['exc']}", "sig": ["C01", "raise", r["exc"][0], r["exc"][1]], "input": inp}
-    d = r["funcs"].get("f")
-    if d is None or d["typed"] is None:
-        return None
-    e2e.calculus_check(d, "C01", failing, inp["src"], o)
+    for fname, d in r["funcs"].items():
+        if d is None or d["typed"] is None:
+            continue
+        e2e.calculus_check(d, "C01", failing, inp["src"], o)
     return failing[0] if failing else None
